@@ -47,6 +47,7 @@ type Ctx struct {
 	render     func() any
 	steps      int64
 	events     []string // optional event log for the determinism self-test
+	pending    any      // panic value of an aborted lazy draw, re-raised by finish
 }
 
 // Run-wide state (one property per process).
@@ -282,7 +283,31 @@ func (cx *Ctx) Event(format string, args ...any) {
 
 func EventLogging() bool { return rs.evlog != nil }
 
+// Lazy performs draws that happen in the middle of a run of real code (pool decisions, scheduler
+// picks). rapid signals "bit-stream exhausted / attempt invalid" by panicking out of Draw; that
+// panic must not unwind through the system under test (whose recover wrappers would swallow it and
+// make the attempt look like a failure), so it is caught here, the run continues on default
+// decisions (def), and finish re-raises it (DESIGN §3.4, unwinding rule 1).
+func (cx *Ctx) Lazy(def int, draw func() int) (v int) {
+	if cx.pending != nil {
+		return def
+	}
+	defer func() {
+		if p := recover(); p != nil {
+			cx.pending = p
+			v = def
+		}
+	}()
+	return draw()
+}
+
+// Pending reports whether a lazy draw was aborted (the run is finishing on default decisions).
+func (cx *Ctx) Pending() bool { return cx.pending != nil }
+
 func (cx *Ctx) finish() {
+	if cx.pending != nil {
+		panic(cx.pending)
+	}
 	rs.cases++
 	rs.steps += cx.steps
 	if rs.evlog != nil {
